@@ -396,12 +396,8 @@ static void FuncCOSH(TempResult* pResult, TempResult const* pArgs, unsigned ArgC
 static void FuncTANH(TempResult* pResult, TempResult const* pArgs, unsigned ArgCnt) {
     UNUSED(ArgCnt);
 
-    if (pArgs[0].Contents.Float > 709) {
-        as_tempres_set_none(pResult);
-        WrError(ErrNum_FloatOverflow);
-    } else {
-        as_tempres_set_float(pResult, tanh(pArgs[0].Contents.Float));
-    }
+    /* tanh() is bounded by +/-1: no argument can overflow */
+    as_tempres_set_float(pResult, tanh(pArgs[0].Contents.Float));
 }
 
 static void FuncCOTH(TempResult* pResult, TempResult const* pArgs, unsigned ArgCnt) {
@@ -409,10 +405,7 @@ static void FuncCOTH(TempResult* pResult, TempResult const* pArgs, unsigned ArgC
 
     UNUSED(ArgCnt);
 
-    if (pArgs[0].Contents.Float > 709) {
-        as_tempres_set_none(pResult);
-        WrError(ErrNum_FloatOverflow);
-    } else if ((FVal = tanh(pArgs[0].Contents.Float)) == 0.0) {
+    if ((FVal = tanh(pArgs[0].Contents.Float)) == 0.0) {
         as_tempres_set_none(pResult);
         WrError(ErrNum_InvFuncArg);
     } else {
